@@ -187,7 +187,13 @@ def run(ctx):
             if m["kind"] == "announceOther" and m["sender"] == 2:
                 return True
         return False
-    kfirst = [h for h in khists if impersonator_first(h)]
+    def blocks_the_block(h):
+        """impersonator first, its share under the victim's id, and members 1, 3, 4 answering honestly"""
+        honest = {m["sender"] for m in h if m["kind"] == "honest"}
+        return impersonator_first(h) and {1, 3, 4} <= honest and \
+            any(m["kind"] == "underOtherKey" and m["sender"] == 2 for m in h)
+    kblock = [h for h in khists if blocks_the_block(h)]
+    kfirst = kblock[:10 if quick else 400] + [h for h in khists if impersonator_first(h) and not blocks_the_block(h)]
     krest = [h for h in khists if not impersonator_first(h)]
     chosen = hists[:1400 if quick else 60000] + kfirst[:100 if quick else 8000] + krest[:200 if quick else 16000]
     rnd.shuffle(chosen)
